@@ -571,6 +571,58 @@ def name_error_info_after_deactivation():
     print("info() after the with-block:", info["annotation"], info["provenance"])
     return info["provenance"] != "body"
 
+def attribute_store_focus_on_demand():
+    class K:
+        def moo(self, x):
+            self.x = x
+            self.y = x
+            return self.x + self.y
+
+    k = K()
+    with probing("K.moo > self.x", env={"K": K}, overridable=True) as prb:
+        prb.override(lambda d: d["self.x"] + 1)
+        r = (k.moo(7), k.x, k.y)
+    with probing("K.moo > self.x", env={"K": K}) as prb:
+        ev = prb.accum()
+        k.moo(3)
+    print("overridden call:", r, "plain events:", ev)
+    return r != (15, 8, 7) or ev != [{"self.x": 3}]
+
+
+def overlay_on_tooled_function_keeps_its_events():
+    from ptera import tooled
+    from ptera.overlay import Overlay
+
+    @tooled
+    def f1(x):
+        a = x + 1
+        b = a * 2
+        return b
+
+    with Overlay.tapping("f1 > a") as da:
+        f1(1)
+        with probing("f1 > b") as prb:
+            pb = prb.accum()
+            f1(1)
+        f1(1)
+    print("overlay events:", len(da), "probe events:", pb)
+    return len(da) != 3 or pb != [{"b": 4}]
+
+
+def multiline_string_in_method_altered():
+    class A:
+        def m(self):
+            s = """a
+            b"""
+            return s
+
+    plain = A().m()
+    with probing("A.m > s", env={"A": A}):
+        probed = A().m()
+    print(repr(plain), repr(probed))
+    return plain != probed
+
+
 # ---- recorded findings reported by independent agents (round 5), not repaired --------------------------------------------
 def generator_running_before_activation():
     """C02: an activation that started before the probe keeps running the untransformed code object."""
@@ -824,7 +876,7 @@ CASES = {
     "annotation_reevaluated": ["C01"], "for_target_starred": ["C01"], "for_target_attribute": ["C01"], "nonlocal_closure": ["C01"],
     "nested_class_in_function": ["C01"], "nested_def_in_function": ["C01", "C10"], "name_bound_in_except_body": ["C01", "C10"],
     "method_name_bound_to_none_in_module": ["C01"], "defaults_evaluated_again": ["C01"], "tooled_closure_snapshots_cells": ["C01"],
-    "rhs_walrus_no_event": ["C02"], "import_dotted_no_event": ["C02"], "with_target_no_event": ["C02"], "list_target_no_event": ["C02"],
+    "attribute_store_focus_on_demand": ["C04", "C02"], "multiline_string_in_method_altered": ["C01"], "rhs_walrus_no_event": ["C02"], "import_dotted_no_event": ["C02"], "with_target_no_event": ["C02"], "list_target_no_event": ["C02"],
     "walrus_in_lambda_spurious_event": ["C02"], "generator_running_before_activation": ["C02"], "with_item_fails_after_target_bound": ["C02"],
     "value_on_fallthrough": ["C06"], "rhs_yield_no_events": ["C06", "C02"], "nested_coroutine_value_after_exit": ["C06"], "finally_overrides_return": ["C06"],
     "except_type_name_refused": ["C10"], "except_body_name_refused": ["C10"], "nested_def_name_refused": ["C10"],
@@ -832,7 +884,7 @@ CASES = {
     "unused_undefined_global_raises": ["C16"], "name_error_info_after_deactivation": ["C16"], "absent_marker_in_override_event": ["C16"],
     "equal_but_distinct_receivers": ["C13"], "unhashable_receiver": ["C13"], "two_bound_methods_on_one_path": ["C13", "C03"],
     "tag_hidden_by_later_annotation": ["C11"],
-    "completion_error_leaves_probe_active": ["C17", "C05"], "deactivation_inside_a_call_is_undone_at_its_exit": ["C05"],
+    "completion_error_leaves_probe_active": ["C17", "C05"], "overlay_on_tooled_function_keeps_its_events": ["C05"], "deactivation_inside_a_call_is_undone_at_its_exit": ["C05"],
     "probe_activated_inside_a_call_is_dropped": ["C05"],
     "same_name_constrained_in_two_frames": ["C12"], "bound_method_subselector_drops_record": ["C07"],
     "hidden_temporaries_keep_generator_alive": ["C09"], "same_name_at_two_placements": ["C14"],
